@@ -100,7 +100,7 @@ def hostile_session(ctx, sid):
     s = FC.Session(sid, sim)
     n = len(sim.trx)
     gen = rand_burst_gen.RandBurstGen()
-    FC.setup_pair(s, rng)
+    FC.setup_pair(s, rng, hop=rng.random() < 0.4)
     for t in range(n):
         if rng.random() < 0.5:
             s.cmd(t, "CMD SETFORMAT %d" % rng.choice([0, 1]))
@@ -137,6 +137,11 @@ def hostile_session(ctx, sid):
             raw = bytearray(D.mutate(rng, good))
             if len(raw) >= 2:
                 raw[1] &= 0x7f
+            if rng.random() < 0.25:
+                # well-formed but for the frame number: beyond the hyperframe and congruent to a frame
+                # the clock is about to reach, so it waits in the queue and comes up in a tick
+                raw = bytearray(good)
+                raw[1:5] = ((src + rng.randint(0, 2)) % FC.HYPER + FC.HYPER * rng.choice([1, 2, 50, 789])).to_bytes(4, "big")
             if len(raw) > 512:
                 raw = raw[:512]
             # from somewhere else than the transceiver's own L1 (well-formed ones among them are
